@@ -1,4 +1,6 @@
 SPECIFICATION Spec
+CONSTANT K = 1
+CONSTANT Seed = 0
 INVARIANT DepClosed
 INVARIANT OrderOK
 INVARIANT NoStuck
